@@ -531,6 +531,16 @@ def processConc (h : Hist) (b : Block) (otoks : List String) : Hist :=
           (if extra.isEmpty then [] else [s!"the update {ots} of component ({tid}, {eid}) reached connections {extra}, which are not subscribed to type {tid}"]) ++
           (if twice then [s!"the update {ots} of component ({tid}, {eid}) reached a connection twice: {got}"] else [])
         | _, _ => []
+      -- ... and a connection that has been answered that it is unsubscribed is told about no further update of the type
+      let afterUnsub : List String := tasks.flatMap fun (t : Nat × Option Req) =>
+        match t.2 with
+        | some (.unsubscribe rid tid) =>
+          let inbox := inboxOf t.1 b.ds
+          let tail := (inbox.dropWhile fun (o : Out) => o != .unsubscribeResp rid).drop 1
+          let late := tail.filter fun (o : Out) => match o with | .compUpdateBcast _ c => c.tid == tid | _ => false
+          if late.isEmpty then [] else [s!"connection {t.1} was told it is unsubscribed from type {tid} (request {rid}) and then received {reprStr late}"]
+        | _ => []
+      let subIssues := subIssues ++ afterUnsub
       let viol := if subIssues.isEmpty then viol else
         viol.push ("C13", "component-update-notify", flatS s!"{" ".intercalate b.ev} :: {subIssues}")
       let viol := if lateRelays.isEmpty then viol else
